@@ -19,6 +19,14 @@ FLOOR = {"quick": 1000, "thorough": 5000}
 POOL = [("s", "a"), ("s", "aa"), ("s", "ab"), ("s", "b"),
         ("r", "a"), ("r", "a+"), ("r", "ab?"), ("r", "[ab]+"), ("r", "b"),
         ("c", "ab|a")]          # custom Python recogniser returning a tuple
+SHORT_POOL = POOL
+# string terminals of ten and more characters next to short ones (lengths
+# with two digits: the order strings are tried in is "longest first")
+LONG_POOL = [("s", "aa"), ("s", "a" * 10), ("s", "a" * 11), ("s", "ab"),
+             ("s", "ab" * 5 + "a"), ("s", "a" * 9), ("r", "a+"), ("r", "[ab]+")]
+LONG_INPUTS = ["a" * k for k in range(1, 14)] + \
+    ["ab" * k + t for k in range(1, 7) for t in ("", "a", "b")] + \
+    ["a" * k + "b" for k in (1, 2, 9, 10, 11)]
 PRIOS = (9, 10, 11)
 MARKS = (None, "finish", "nofinish")
 
@@ -49,17 +57,20 @@ def plan(tier, seed):
         return [dict(size=1), dict(size=2),
                 dict(size=3, win=(seed, 30)),
                 dict(size=2, marks=True, win=(seed, 6)),
-                dict(size=2, ignore_case=True, win=(seed, 4))]
+                dict(size=2, ignore_case=True, win=(seed, 4)),
+                dict(size=2, long=True, win=(seed, 2))]
     return [dict(size=1), dict(size=2), dict(size=3),
             dict(size=4, win=(0, 200)),
             dict(size=2, marks=True), dict(size=3, marks=True, win=(0, 40)),
             dict(size=2, ignore_case=True), dict(size=3, ignore_case=True,
-                                                 win=(0, 10))]
+                                                 win=(0, 10)),
+            dict(size=2, long=True), dict(size=3, long=True, win=(0, 10))]
 
 
 def units(tier, seed):
     out = []
     for row in plan(tier, seed):
+        use_pool(row.get("long", False))
         n = len(term_sets(row["size"], row.get("marks", False)))
         win = row.get("win")
         idxs = list(range(n)) if win is None else list(
@@ -67,8 +78,15 @@ def units(tier, seed):
         for i in range(0, len(idxs), 25):
             out.append(dict(size=row["size"], marks=row.get("marks", False),
                             ignore_case=row.get("ignore_case", False),
-                            idx=idxs[i:i + 25]))
+                            idx=idxs[i:i + 25], long=row.get("long", False)))
+    use_pool(False)
     return out
+
+
+def use_pool(long):
+    """the recogniser pool the profile indices refer to"""
+    global POOL
+    POOL = LONG_POOL if long else SHORT_POOL
 
 
 def worker_init():
@@ -136,9 +154,12 @@ def run_unit(u):
     mon = Monitor()
     judge = Judge(PROP, KNOWN)
     st = collections.Counter()
+    use_pool(u.get("long", False))
     tsets = term_sets(u["size"], u["marks"])
     ic = u["ignore_case"]
     inputs = spaces.strings("aAb" if ic else "ab", 3 if ic else 4)
+    if u.get("long"):
+        inputs = LONG_INPUTS
     samples = []
     for ti in u["idx"]:
         tset = tsets[ti]
